@@ -167,16 +167,25 @@ def rule_c15_r3(model: Model) -> RuleResult:
     else:
         val = reorder[0].ast.value
         parts = []
-        good = isinstance(val, (ast.List, ast.Tuple)) and len(val.elts) == 2
-        if good:
-            for e in val.elts:
-                c = e.value if isinstance(e, ast.Starred) else None
-                if isinstance(c, ast.Call) and isinstance(c.func, ast.Name) and c.func.id == 'filter' and len(c.args) == 2 \
-                        and isinstance(c.args[0], ast.Lambda) and c.args[0].args.args:
-                    b = {c.args[0].args.args[0].arg: 'λ0'}
-                    parts.append((nz.literal(c.args[0].body, reorder[0], b), unparse(c.args[1])))
-                else:
-                    good = False
+        pieces: t.List[ast.AST] = []
+        if isinstance(val, (ast.List, ast.Tuple)) and len(val.elts) == 2 and all(isinstance(e, ast.Starred) for e in val.elts):
+            pieces = [e.value for e in val.elts]          # [*a, *b]
+        elif isinstance(val, ast.BinOp) and isinstance(val.op, ast.Add):
+            pieces = [val.left, val.right]                # a + b
+        good = len(pieces) == 2
+        for c in pieces:
+            while isinstance(c, ast.Call) and isinstance(c.func, ast.Name) and c.func.id in ('list', 'tuple') and len(c.args) == 1:
+                c = c.args[0]
+            if isinstance(c, ast.Call) and isinstance(c.func, ast.Name) and c.func.id == 'filter' and len(c.args) == 2 \
+                    and isinstance(c.args[0], ast.Lambda) and c.args[0].args.args:
+                b = {c.args[0].args.args[0].arg: 'λ0'}
+                parts.append((nz.literal(c.args[0].body, reorder[0], b), unparse(c.args[1])))
+            elif isinstance(c, (ast.ListComp, ast.GeneratorExp)) and len(c.generators) == 1 and len(c.generators[0].ifs) == 1 \
+                    and isinstance(c.generators[0].target, ast.Name) and isinstance(c.elt, ast.Name) and c.elt.id == c.generators[0].target.id:
+                b = {c.generators[0].target.id: 'λ0'}
+                parts.append((nz.literal(c.generators[0].ifs[0], reorder[0], b), unparse(c.generators[0].iter)))
+            else:
+                good = False
         r.sample({'reorder': [(('' if p[1] else 'not ') + p[0], src) for (p, src) in parts]})
         form = unparse(val)
         if good and [p for (p, _s) in parts] == [('TRUTHY(λ0.kw_only)', False), ('TRUTHY(λ0.kw_only)', True)] and parts[0][1] == parts[1][1] == 'fields':
@@ -378,11 +387,25 @@ def rule_c16_r3(model: Model) -> RuleResult:
         r.fail(f.qualname, '__repr__', f.loc(), "repr must list exactly the repr-fields in field order")
     # field(): hash defaults to compare
     ff = model.func('pane.field.field')
+    fcfg = cfg_of(model, ff)
+    fnz = Normalizer(model, ff, fcfg, param_map={p_: f'${p_}' for p_ in ff.params})
     r.instances += 1
-    if re.search(r'hash=hash if hash is not None else compare', unparse(ff.node)):
+    hform = None
+    for n in fcfg.live_nodes():
+        for root in node_exprs(n):
+            for c in walk_no_nested(root):
+                if isinstance(c, ast.Call) and model.resolve(c.func, ff.module, ff) == 'pane.field.FieldSpec':
+                    for k in c.keywords:
+                        if k.arg == 'hash':
+                            hform = fnz.expr(k.value, n)
+    r.sample({'field(hash=)': hform})
+    lits = {fnz.literal(n.ast, n)[0] for n in fcfg.nodes if n.kind == 'cond'}
+    if hform in ('($hash if not $hash is None else $compare)', '($hash if not None is $hash else $compare)',
+                 '($compare if $hash is None else $hash)', '($compare if None is $hash else $hash)') or \
+            (hform == 'PHI($compare|$hash)' and lits & {'$hash is None', 'None is $hash'}):
         r.ok()
     else:
-        r.fail(ff.qualname, 'hash default', ff.loc(), "field(hash=None) must default to the value of compare")
+        r.fail(ff.qualname, f"hash={hform}", ff.loc(), "field(hash=None) must default to the value of compare, and an explicit hash=False must be kept")
     return r
 
 
@@ -668,7 +691,8 @@ def rule_c15_r4(model: Model) -> RuleResult:
             raise AnalysisError(f"PaneConverter.{mname} not found")
         ex = Extractor(model, cls, mode)
         ex.run(f)
-        subs = [k for k in ex.atoms.keys() if k[0] == 'SUB']
+        subs = sorted({('SUB', recv, arg, ' & '.join(ctx)) for (recv, arg, ctx, _loc) in ex.raw_subs})
+        locs = {('SUB', recv, arg, ' & '.join(ctx)): loc for (recv, arg, ctx, loc) in ex.raw_subs}
         r.instances += 1
         r.analysed.add(f.qualname)
         r.sample({mname: [f"{k[1]} <- {k[2]} when {k[3]}" for k in subs]})
@@ -681,7 +705,7 @@ def rule_c15_r4(model: Model) -> RuleResult:
         if k[1] == 'ELEM(self.field_converters)' and k[2] == 'ELEM(VAL)' and 'TRUTHY(ELEM(self.fields).init)' in ctx:
             r.ok()
         else:
-            r.fail(f.qualname, f"{k[1]} <- {k[2]} when {k[3]}", ex.atoms.d[k][0],
+            r.fail(f.qualname, f"{k[1]} <- {k[2]} when {k[3]}", locs[k],
                    "positional values are zipped with converters of fields other than the ones they are bound to (the constructor binds them to the "
                    "init fields only): after an init=False field every value is validated against its neighbour's type")
     return r
